@@ -156,6 +156,7 @@ type enc struct {
 	wfSeen  map[string]bool
 	resultTerms []modelVar
 	finder  bool
+	unfolded map[string]bool
 }
 
 func newEnc(w *World, ss *SpecSet, fn *ssa.Function) *enc {
@@ -368,6 +369,17 @@ func (e *enc) constant(c *ssa.Const) Term {
 
 func (e *enc) value(v ssa.Value) Term {
 	fr := e.fr
+	// maps are references: a register holding a map whose content lives in a cell always denotes the current content
+	if p, ok := fr.prov[v]; ok {
+		if _, isMap := v.Type().Underlying().(*types.Map); isMap {
+			switch v.(type) {
+			case *ssa.MakeMap, *ssa.Parameter:
+				if _, ok := fr.val[v]; ok {
+					return e.read(p)
+				}
+			}
+		}
+	}
 	if t, ok := fr.val[v]; ok {
 		return t
 	}
@@ -378,6 +390,15 @@ func (e *enc) value(v ssa.Value) Term {
 		t := e.fresh("p_"+x.Name(), e.so.of(x.Type()))
 		fr.val[v] = t
 		e.assumeWF(t, x.Type(), 2)
+		if _, isMap := x.Type().Underlying().(*types.Map); isMap {
+			// maps are references: the parameter's current content lives in a cell so that updates are visible
+			key := fmt.Sprintf("P:%s:%d:%s", clean(fr.fn.Name()), fr.depth, x.Name())
+			e.memSort[key] = e.so.of(x.Type())
+			e.memTy[key] = x.Type()
+			e.mem[key] = t
+			e.init[key] = t
+			fr.prov[v] = &Loc{base: key, sort: e.so.of(x.Type()), ty: x.Type()}
+		}
 		return t
 	case *ssa.FreeVar:
 		t := e.fresh("fv_"+x.Name(), e.so.of(x.Type()))
